@@ -24,6 +24,7 @@ type GhostDef struct {
 type Track struct {
 	Callee string // name of a parameter / free variable / function as written
 	Alias  string
+	When   Expr // optional filter over the call's arguments ($0, $1, ...)
 }
 
 // Contract is the specification of one function (or of one library function, when Trusted).
@@ -35,6 +36,7 @@ type Contract struct {
 	File     string
 	Line     int
 	Trusted  bool
+	Abstract bool // contract of an interface method: assumed at invoke sites, justified by the contracts of the implementations
 	Pure     bool // no heap effect at call sites
 	NoPanic  bool
 	Inline   bool // use the body, not the contract, at call sites
@@ -108,7 +110,7 @@ var clauseKeywords = map[string]bool{
 	"func": true, "fun": true, "pred": true, "requires": true, "ensures": true, "modifies": true, "pure": true,
 	"ghost": true, "loop": true, "nopanic": true, "trusted": true, "panics": true, "track": true, "global-invariant": true,
 	"monitor": true, "invariant": true, "transition": true, "lemma": true, "axiom": true, "inline": true, "assert": true,
-	"props": true, "params": true, "protects": true, "snapshot": true,
+	"props": true, "params": true, "protects": true, "snapshot": true, "abstract": true,
 }
 
 type rawClause struct {
@@ -371,6 +373,8 @@ func (db *SpecDB) LoadSpecFile(path, pkgPath string) error {
 				cur.Pure = true
 			case "trusted":
 				cur.Trusted = true
+			case "abstract":
+				cur.Abstract = true
 			case "nopanic":
 				cur.NoPanic = true
 			case "inline":
@@ -393,8 +397,18 @@ func (db *SpecDB) LoadSpecFile(path, pkgPath string) error {
 				}
 				cur.Snaps = append(cur.Snaps, Track{Callee: fs[3], Alias: fs[0]})
 			case "track":
-				fs := strings.Fields(rc.rest)
-				tr := Track{Callee: fs[0], Alias: fs[0]}
+				rest := rc.rest
+				var when Expr
+				if i := strings.Index(rest, " when "); i >= 0 {
+					e, err := ParseExpr(rest[i+6:])
+					if err != nil {
+						return fmt.Errorf("%s:%d: %v", path, rc.line, err)
+					}
+					when = e
+					rest = rest[:i]
+				}
+				fs := strings.Fields(rest)
+				tr := Track{Callee: fs[0], Alias: fs[0], When: when}
 				if len(fs) == 3 && fs[1] == "as" {
 					tr.Alias = fs[2]
 				}
